@@ -32,6 +32,11 @@ pub fn scenarios() -> Vec<Scenario> {
         Scenario { name: "f-2xSameHashSameMsgLen", progs: vec![Prog::Hash("Blake512", 14), Prog::Hash("Blake512", 15), Prog::Hash("Jh512", 16)], steps: 3 },
         // instances of one hash family with different output sizes / state sizes (shared per-family statics)
         Scenario { name: "g-SkeinSizes", progs: vec![Prog::Hash("Skein512/16", 17), Prog::Hash("Skein512", 18), Prog::Hash("Skein512/32", 19)], steps: 3 },
+        // several cipher instances used alternately (buffered partial blocks, per-thread scratch)
+        Scenario { name: "i-3xCiphers", progs: vec![Prog::Cipher("ChaCha20", 24), Prog::Cipher("ChaCha20", 25), Prog::Cipher("Ietf", 26)], steps: 3 },
+        // the XChaCha round-count variants with the SAME key and nonce (anything cached per key/nonce)
+        Scenario { name: "j-XChaChaSameKey", progs: vec![Prog::Cipher("XChaCha8", 27), Prog::Cipher("XChaCha12", 27), Prog::Cipher("XChaCha20", 27)], steps: 3 },
+        Scenario { name: "k-ChaChaSameKey", progs: vec![Prog::Cipher("ChaCha8", 28), Prog::Cipher("ChaCha12", 28), Prog::Cipher("ChaCha20", 28), Prog::Hash("Blake256", 29)], steps: 2 },
         Scenario { name: "h-SkeinFamilies", progs: vec![Prog::Hash("Skein256/16", 20), Prog::Hash("Skein256", 21), Prog::Hash("Skein1024/16", 22), Prog::Hash("Skein1024", 23)], steps: 2 },
     ]
 }
@@ -122,6 +127,9 @@ fn make_cipher(name: &str, seed: u8) -> Box<dyn FnMut(&str, usize) -> Vec<u8>> {
         "XChaCha20" => cipher_runner::<KXChaCha20>(seed),
         "Ietf" => cipher_runner::<KIetf>(seed),
         "ChaCha8" => cipher_runner::<KChaCha8>(seed),
+        "ChaCha12" => cipher_runner::<KChaCha12>(seed),
+        "XChaCha8" => cipher_runner::<KXChaCha8>(seed),
+        "XChaCha12" => cipher_runner::<KXChaCha12>(seed),
         o => panic!("unknown cipher {}", o),
     }
 }
@@ -132,6 +140,9 @@ fn cipher_expected(name: &str, seed: u8, steps: usize) -> Vec<u8> {
         "XChaCha20" => (Layout::X, 10, 24),
         "Ietf" => (Layout::Ietf, 10, 12),
         "ChaCha8" => (Layout::Djb, 4, 8),
+        "ChaCha12" => (Layout::Djb, 6, 8),
+        "XChaCha8" => (Layout::X, 4, 24),
+        "XChaCha12" => (Layout::X, 6, 24),
         o => panic!("unknown cipher {}", o),
     };
     let s = Stream::new(layout, dr, &key_pattern(seed as usize), &nonce_pattern(seed as usize, nl));
@@ -323,7 +334,7 @@ pub fn run(tier: &str, config: &str) -> Report {
     let exe = std::env::current_exe().unwrap();
     let scs = scenarios();
     let chosen: Vec<&Scenario> = scs.iter().collect();
-    rep.rule = "for each scenario (a: 3 threads Groestl256, b: 3 threads Groestl512, c: Groestl224+Groestl384+ChaCha20+Blake512 x 2 calls, d: Jh256+Skein512+XChaCha20, e: Blake256+Ietf+Groestl256, f: 2xBlake512+Jh512, g: Skein512 with 16/64/32-byte outputs, h: Skein256 and Skein1024 with two output sizes each x 2 calls; calls = {new+first update / first keystream request, second update / request, finalize / seek+request}) every interleaving of the threads' calls (multinomial count) is executed in a cold subprocess, once with one OS thread per logical thread under a baton scheduler and once with a single OS thread (interleaving of independent instances); oracle: each thread's outputs equal the reference model (vref) = the solo outputs; thorough replays every schedule twice and requires identical observations".into();
+    rep.rule = "for each scenario (a: 3 threads Groestl256, b: 3 threads Groestl512, c: Groestl224+Groestl384+ChaCha20+Blake512 x 2 calls, d: Jh256+Skein512+XChaCha20, e: Blake256+Ietf+Groestl256, f: 2xBlake512+Jh512, g: Skein512 with 16/64/32-byte outputs, h: Skein256 and Skein1024 with two output sizes each x 2 calls, i: ChaCha20+ChaCha20+Ietf each ending calls mid-block, j: XChaCha8/12/20 with the same key and nonce, k: ChaCha8/12/20 with the same key and nonce + Blake256 x 2 calls; calls = {new+first update / first keystream request, second update / request, finalize / seek+request}) every interleaving of the threads' calls (multinomial count) is executed in a cold subprocess, once with one OS thread per logical thread under a baton scheduler and once with a single OS thread (interleaving of independent instances); oracle: each thread's outputs equal the reference model (vref) = the solo outputs; thorough replays every schedule twice and requires identical observations".into();
     let mut total_sched = 0u64;
     let mut distinct_out = std::collections::HashSet::new();
     let mut per = Vec::new();
